@@ -268,7 +268,7 @@ func advValidateActs(w *world.World, b string) []engine.Action {
 func init() {
 	engine.Register(&engine.Property{
 		ID: "C02", Level: "model_checking",
-		Rule:  "E1: (1) adversary-only action menu, invariant 'no browser holds uid=victim' on every reachable state; (2) full-knowledge menu, per-transition rule on first-factor and validate requests; classes = pending/complete/reject kinds hit",
+		Rule: "E1: (1) adversary-only action menu, invariant 'no browser holds uid=victim' on every reachable state; (2) full-knowledge menu, per-transition rule on first-factor and validate requests; classes = pending/complete/reject kinds hit",
 		Units: func(tier string) []engine.Unit {
 			scs := c02Scenarios(tier)
 			return e1Units(append(scs, configVariants(scs, tier, "faults:login(|-validate(|recover-end(|otplogin(")...))
